@@ -1,70 +1,104 @@
-"""Contracts for /repo/src/closest.c  (C06, C07, C20)."""
+"""Contracts for /repo/src/closest.c  (C06, C07, C20).
+
+Clauses written as plain strings are structural / safety clauses (needed for C20 and used everywhere);
+clauses written as (property, text) are functional and belong to that property only.
+"""
 from verif.contract import cfn
 from . import specs  # noqa
+
+
+def T(tag, *xs):
+    return [(tag, x) for x in xs]
+
 
 # |ubi.g| <= 2^51 : the domain on which the MAGIC rounding idiom equals round-half-even (lemma rne_magic)
 RNG = ["forall(0, ng, lambda q: And_(*[And_(hkl(ubi, gv, q, r) <= 2**51, hkl(ubi, gv, q, r) >= -2**51) for r in range(3)]))"]
 R9 = "[(i, j) for i in range(3) for j in range(3)]"
 
 cfn("closest.c:conv_double_to_int_safe",
-    ensures=["result == floor(x + 0.5)"], props=["C06"])
+    ensures=T("C06", "result == floor(x + 0.5)"), props=["C06"])
 
 cfn("closest.c:inverse3x3", lens={"H": 3},
     assigns=["H"],
     locals={"det": "det3(old.H)"},
-    ensures=["(det != 0) == (result == 0)", "(det == 0) == (result == -1)",
-             "implies(det == 0, And_(*[H[i][j] == old.H[i][j] for i, j in %s]))" % R9,
-             "implies(det != 0, And_(*[H[i][j] == adj3(old.H, i, j) / det for i, j in %s]))" % R9]
-    + ["implies(det != 0, H[%d][%d] * det == adj3(old.H, %d, %d))" % (i, j, i, j) for i in range(3) for j in range(3)],
+    ensures=T("C06", "(det != 0) == (result == 0)", "(det == 0) == (result == -1)",
+              "implies(det == 0, And_(*[H[i][j] == old.H[i][j] for i, j in %s]))" % R9,
+              "implies(det != 0, And_(*[H[i][j] == adj3(old.H, i, j) / det for i, j in %s]))" % R9,
+              *["implies(det != 0, H[%d][%d] * det == adj3(old.H, %d, %d))" % (i, j, i, j)
+                for i in range(3) for j in range(3)]),
     props=["C06"])
 
 cfn("closest.c:verify_rounding", rne="exact",
     requires=["n >= -2**30", "n <= 2**30"],
-    ensures=["result == 0"], props=["C06"])
+    ensures=T("C06", "result == 0"), props=["C06"])
 
 SEL = "lambda q: dspec(ubi, gv, q) < tol*tol"
 cfn("closest.c:score", lens={"ubi": 3, "gv": "ng"},
     requires=["ng >= 0"] + RNG,
-    loops={0: ["n == count('nsel', k, %s)" % SEL, "0 <= n <= k"]},
-    ensures=["result == count('nsel', ng, %s)" % SEL],
+    loops={0: T("C06", "n == count('nsel', k, %s)" % SEL) + ["0 <= n <= k"]},
+    ensures=T("C06", "result == count('nsel', ng, %s)" % SEL),
     props=["C06"])
 
 # ---- score_and_refine: n, mean drlv2, R = sum g h^T, H = sum h h^T over the selected peaks, ubi' = (R H^-1)^-1
 SELO = "lambda q: dspec(old.ubi, gv, q) < tol*tol"
-def Rsum(i, j, n):
-    return "rsum('R%d%d', %s, lambda q: ite(dspec(old.ubi, gv, q) < tol*tol, ihkl(old.ubi, gv, q, %d)*gv[q][%d], 0), 0, 'real')" % (i, j, n, j, i)
-def Hsum(i, j, n):
-    return "rsum('H%d%d', %s, lambda q: ite(dspec(old.ubi, gv, q) < tol*tol, ihkl(old.ubi, gv, q, %d)*ihkl(old.ubi, gv, q, %d), 0), 0, 'real')" % (i, j, n, j, i)
-SUMD = "rsum('sumd', %s, lambda q: ite(dspec(old.ubi, gv, q) < tol*tol, dspec(old.ubi, gv, q), 0), 0, 'real')"
-RN = "Mat([[%s],[%s],[%s]])" % (",".join(Rsum(0, j, "ng") for j in range(3)),
-                                ",".join(Rsum(1, j, "ng") for j in range(3)),
-                                ",".join(Rsum(2, j, "ng") for j in range(3)))
-HN = "Mat([[%s],[%s],[%s]])" % (",".join(Hsum(0, j, "ng") for j in range(3)),
-                                ",".join(Hsum(1, j, "ng") for j in range(3)),
-                                ",".join(Hsum(2, j, "ng") for j in range(3)))
-cfn("closest.c:score_and_refine", lens={"ubi": 3, "gv": "ng", "n_arg": 1, "sumdrlv2_arg": 1},
-    defined={"n_arg": False, "sumdrlv2_arg": False},
-    outputs={"n_arg": "0..1", "sumdrlv2_arg": "0..1"},
-    assigns=["ubi", "n_arg", "sumdrlv2_arg"],
-    requires=["ng >= 0"] + RNG,
-    loops={2: ["n == count('nsel', k, %s)" % SELO, "0 <= n <= k",
-               "sumdrlv2 == " + SUMD % "k",
-               "And_(*[ubi[i][j] == old.ubi[i][j] for i, j in %s])" % R9,
-               "implies(n == 0, sumdrlv2 == 0)",
-               "isdef('n')", "isdef('sumdrlv2')"]
-              + ["R[%d][%d] == %s" % (i, j, Rsum(i, j, "k")) for i in range(3) for j in range(3)]
-              + ["H[%d][%d] == %s" % (i, j, Hsum(i, j, "k")) for i in range(3) for j in range(3)]
-              + ["And_(*[And_(defined(R[i], j), defined(H[i], j), defined(UB[i], j), UB[i][j] == 0) for i, j in %s])" % R9]},
-    locals={"Rn": RN, "Hn": HN, "npk": "count('nsel', ng, %s)" % SELO},
-    ensures=["n_arg[0] == npk",
-             "sumdrlv2_arg[0] == ite(npk > 0, %s / npk, 0)" % (SUMD % "ng"),
-             # singular normal equations: input returned unchanged
-             "implies(det3(Hn) == 0, And_(*[ubi[i][j] == old.ubi[i][j] for i, j in %s]))" % R9,
-             "implies(And_(det3(Hn) != 0, det3(matmul3(Rn, inv3(Hn))) == 0), And_(*[ubi[i][j] == old.ubi[i][j] for i, j in %s]))" % R9,
-             # otherwise ubi' = inverse(UB), UB = R . H^-1  (inverse by the adjugate formula)
-             "implies(And_(det3(Hn) != 0, det3(matmul3(Rn, inv3(Hn))) != 0),"
-             " And_(*[ubi[i][j] == inv3(matmul3(Rn, inv3(Hn)))[i][j] for i, j in %s]))" % R9],
-    props=["C06"])
+
+
+def Rsum(i, j, n, sel="dspec(old.ubi, gv, q) < tol*tol"):
+    return "rsum('R%d%d', %s, lambda q: ite(%s, ihkl(old.ubi, gv, q, %d)*gv[q][%d], 0), 0, 'real')" % (i, j, n, sel, j, i)
+
+
+def Hsum(i, j, n, sel="dspec(old.ubi, gv, q) < tol*tol"):
+    return "rsum('H%d%d', %s, lambda q: ite(%s, ihkl(old.ubi, gv, q, %d)*ihkl(old.ubi, gv, q, %d), 0), 0, 'real')" % (i, j, n, sel, j, i)
+
+
+def mat(f, n, sel):
+    return "Mat([%s])" % ",".join("[%s]" % ",".join(f(i, j, n, sel) for j in range(3)) for i in range(3))
+
+
+def refine_contract(key, sel, loopkey, extra_lens, extra_inv, count_name, npk_out, sum_out, pre=()):
+    SUMD = "rsum('sumd', %%s, lambda q: ite(%s, dspec(old.ubi, gv, q), 0), 0, 'real')" % sel
+    CNT = "count('%s', %%s, lambda q: %s)" % (count_name, sel)
+    lens = {"ubi": 3, "gv": "ng", npk_out: 1, sum_out: 1}
+    lens.update(extra_lens)
+    cfn(key, lens=lens,
+        defined={npk_out: False, sum_out: False},
+        outputs={npk_out: "0..1", sum_out: "0..1"},
+        assigns=["ubi", npk_out, sum_out],
+        requires=["ng >= 0"] + RNG + list(pre),
+        loops={loopkey: ["0 <= n <= k", "isdef('n')", "isdef('%s')" % extra_inv["sumvar"],
+                         "And_(*[And_(defined(R[i], j), defined(H[i], j)) for i, j in %s])" % R9]
+               + extra_inv["safety"]
+               + T("C06", "n == " + CNT % "k",
+                   "%s == " % extra_inv["sumvar"] + SUMD % "k",
+                   "implies(n == 0, %s == 0)" % extra_inv["sumvar"],
+                   "And_(*[ubi[i][j] == old.ubi[i][j] for i, j in %s])" % R9,
+                   *(["R[%d][%d] == %s" % (i, j, Rsum(i, j, "k", sel)) for i in range(3) for j in range(3)]
+                     + ["H[%d][%d] == %s" % (i, j, Hsum(i, j, "k", sel)) for i in range(3) for j in range(3)]))},
+        locals={"Rn": mat(Rsum, "ng", sel), "Hn": mat(Hsum, "ng", sel), "npk_spec": CNT % "ng"},
+        ensures=T("C06",
+                  "%s[0] == npk_spec" % npk_out,
+                  "%s[0] == ite(npk_spec > 0, %s / npk_spec, 0)" % (sum_out, SUMD % "ng"),
+                  # singular normal equations: input returned unchanged
+                  "implies(det3(Hn) == 0, And_(*[ubi[i][j] == old.ubi[i][j] for i, j in %s]))" % R9,
+                  "implies(And_(det3(Hn) != 0, det3(matmul3(Rn, inv3(Hn))) == 0),"
+                  " And_(*[ubi[i][j] == old.ubi[i][j] for i, j in %s]))" % R9,
+                  # otherwise ubi' = inverse(UB), UB = R . H^-1  (inverse by the adjugate formula)
+                  "implies(And_(det3(Hn) != 0, det3(matmul3(Rn, inv3(Hn))) != 0),"
+                  " And_(*[ubi[i][j] == inv3(matmul3(Rn, inv3(Hn)))[i][j] for i, j in %s]))" % R9),
+        props=["C06"])
+
+
+KLOOP = "for(k=0;k<ng;k++)"
+refine_contract("closest.c:score_and_refine", "dspec(old.ubi, gv, q) < tol*tol", KLOOP, {},
+                dict(sumvar="sumdrlv2",
+                     safety=["And_(*[And_(defined(UB[i], j), UB[i][j] == 0) for i, j in %s])" % R9]),
+                "nsel", "n_arg", "sumdrlv2_arg")
+
+# refine_assigned: the same least squares over the peaks carrying `label`
+refine_contract("closest.c:refine_assigned", "labels[q] == label", KLOOP, {"labels": "ng"},
+                dict(sumvar="sumsqtot",
+                     safety=["And_(*[And_(defined(UB[i], j), UB[i][j] == 0) for i, j in %s])" % R9]),
+                "nlab", "npk", "sumdrlv2")
 
 # ---- score_and_assign (C07)
 TAKE = "lambda q: And_(dspec(ubi, gv, q) < tol*tol, dspec(ubi, gv, q) < old.drlv2[q])"
@@ -72,13 +106,62 @@ cfn("closest.c:score_and_assign", lens={"ubi": 3, "gv": "ng", "drlv2": "ng", "la
     assigns=["drlv2", "labels"],
     requires=["ng >= 0"] + RNG,
     locals={"take": TAKE},
-    loops={0: ["n == count('ntake', k, take)", "0 <= n <= k",
+    loops={0: ["0 <= n <= k"] + T("C07",
+               "n == count('ntake', k, take)",
                "forall(0, k, lambda q: implies(take(q), And_(labels[q] == label, drlv2[q] == dspec(ubi, gv, q))))",
                "forall(0, k, lambda q: implies(Not_(take(q)), And_(drlv2[q] == old.drlv2[q],"
                "     labels[q] == ite(old.labels[q] == label, -1, old.labels[q]))))",
-               "forall(k, ng, lambda q: And_(drlv2[q] == old.drlv2[q], labels[q] == old.labels[q]))"]},
-    ensures=["result == count('ntake', ng, take)",
-             "forall(0, ng, lambda q: implies(take(q), And_(labels[q] == label, drlv2[q] == dspec(ubi, gv, q))))",
-             "forall(0, ng, lambda q: implies(Not_(take(q)), And_(drlv2[q] == old.drlv2[q],"
-             "     labels[q] == ite(old.labels[q] == label, -1, old.labels[q]))))"],
+               "forall(k, ng, lambda q: And_(drlv2[q] == old.drlv2[q], labels[q] == old.labels[q]))")},
+    ensures=T("C07", "result == count('ntake', ng, take)",
+              "forall(0, ng, lambda q: implies(take(q), And_(labels[q] == label, drlv2[q] == dspec(ubi, gv, q))))",
+              "forall(0, ng, lambda q: implies(Not_(take(q)), And_(drlv2[q] == old.drlv2[q],"
+              "     labels[q] == ite(old.labels[q] == label, -1, old.labels[q]))))"),
     props=["C07"])
+
+# ---- safety-only kernels (C20)
+cfn("closest.c:closest_vec", lens={"x": "nv*dim", "closest": "nv"},
+    defined={"closest": False}, outputs={"closest": "0..nv"}, assigns=["closest"],
+    requires=["nv >= 0", "dim >= 0", "nv*dim <= INT_MAX"],
+    loops={0: ["forall(0, i, lambda q: defined(closest, q))"],
+           1: ["0 <= i < nv", "0 <= j < nv"],
+           2: ["0 <= i < nv", "0 <= ib < nv"],
+           3: ["0 <= i < nv", "0 <= j < nv"]},
+    wellformed="x is (nv,dim) C-contiguous double, ic has nv entries; nv*dim fits an int", props=["C20"])
+
+cfn("closest.c:closest", lens={"x": "nx", "v": "nv", "ribest": 1, "rbest": 1},
+    defined={"ribest": False, "rbest": False}, outputs={"ribest": "0..1", "rbest": "0..1"},
+    assigns=["ribest", "rbest"], requires=["nx >= 0", "nv >= 0"],
+    loops={1: ["0 <= i < nx"]}, props=["C20"])
+
+for nm in ("put_incr64", "put_incr32"):
+    cfn("closest.c:" + nm, lens={"data": "m", "ind": "n", "vals": "n"}, assigns=["data"],
+        requires=["n >= 0", "m >= 0",
+                  # with boundscheck == 0 the caller promises valid indices (documented: "boundscheck" option)
+                  "implies(boundscheck == 0, forall(0, n, lambda q: And_(ind[q] >= 0, ind[q] < m)))"],
+        wellformed="boundscheck=0 requires 0 <= ind[k] < len(data)", props=["C20"])
+
+cfn("closest.c:cluster1d", lens={"ar": "n", "order": "n", "nclusters": 1, "ids": "n", "avgs": "n"},
+    defined={"nclusters": False, "ids": False, "avgs": False},
+    outputs={"nclusters": "0..1", "ids": "0..n"}, assigns=["nclusters", "ids", "avgs"],
+    requires=["n >= 1", "forall(0, n, lambda q: And_(order[q] >= 0, order[q] < n))"],
+    loops={0: ["forall(0, i, lambda q: And_(defined(ids, q), ids[q] >= 0, ids[q] <= q))",
+               "forall(0, i, lambda q: implies(q <= ids[i-1], defined(avgs, q)))", "ncl >= 1", "ncl <= i", "isdef('ncl')"]},
+    wellformed="n >= 1 (the kernel reads ar[order[0]] unconditionally); order is a permutation of 0..n-1",
+    props=["C20"])
+
+cfn("closest.c:score_gvec_z",
+    lens={"ubi": 3, "ub": 3, "gv": "n", "g0": "n", "g1": "n", "g2": "n", "e": "n"},
+    defined={"e": False}, outputs={"e": "0..n"}, assigns=["g0", "g1", "g2", "e"],
+    requires=["n >= 0",
+              "forall(0, n, lambda q: And_(*[And_(hkl(ubi, gv, q, r) <= 2**51, hkl(ubi, gv, q, r) >= -2**51) for r in range(3)]))"],
+    loops={0: ["forall(0, i, lambda q: defined(e, q))",
+               "reveal(*[hkl(ubi, gv, i, r) for r in range(3)])"]},
+    props=["C20"])
+
+for nm in ("misori_cubic", "misori_orthorhombic", "misori_tetragonal", "misori_monoclinic"):
+    cfn("closest.c:" + nm, lens={"u1": 3, "u2": 3}, props=["C20"])
+
+cfn("closest.c:count_shared", lens={"pi": "ni", "pj": "nj"},
+    requires=["ni >= 0", "nj >= 0"],
+    loops={0: ["0 <= i <= ni", "0 <= j <= nj", "0 <= c <= i"]},
+    props=["C20"])
